@@ -17,7 +17,7 @@ inline const char* const kLieFn[] = {
   "composition", "inverse", "log", "Ad", "exp", "ad", "dr_exp", "dr_expinv", "dl_exp", "dl_expinv",
   "d2r_exp", "d2r_expinv", "rplus", "rminus", "lplus", "lminus", "isApprox", "cast", "dr_rminus",
   "d2r_rminus", "dr_rminus_sqnorm", "d2r_rminus_sqnorm", "member_basic", "member_matrix_hat_vee",
-  "member_bracket", "member_specific", "via_const_map", "composition3", "d2l_exp", "d2l_expinv"};
+  "member_bracket", "member_specific", "via_const_map", "composition3", "d2l_exp", "d2l_expinv", "value_stream"};
 constexpr int kLieNFn = sizeof(kLieFn) / sizeof(kLieFn[0]);
 
 // Galilei and SE_K_3 ship no second-order derivatives (their Impl has no d2r_exp / d2r_expinv)
@@ -227,6 +227,24 @@ struct LieOps {
         if constexpr (has_d2<G>) put_mat(out, smooth::d2l_expinv<G>(ta));
         else out.tag("n/a");
         break;
+      case 30: {
+        // VOLUME of distinct argument values: 32 task-private tangents per call (different in every
+        // call and every thread) pushed through the basic functions together with the shared
+        // operands - a table keyed by argument values grows, rehashes and evicts under this
+        In in{h::mix64(op.salt ^ (0x9e37ull * (uint64_t)(op.iter + 1)))};
+        for (int j = 0; j < 32; ++j) {
+          const T t = make_tan<G>(in, j);
+          const G x = smooth::composition(a, smooth::exp<G>(t));
+          put_elem(out, x);
+          put_mat(out, smooth::log(x));
+          put_mat(out, smooth::rminus(x, b));
+          if ((j & 3) == 0) put_mat(out, smooth::Ad(x));
+          if ((j & 3) == 1) put_mat(out, smooth::dr_exp<G>(t));
+          if ((j & 3) == 2) put_mat(out, smooth::dr_expinv<G>(t));
+          if ((j & 3) == 3) put_elem(out, smooth::inverse(x));
+        }
+        break;
+      }
       default: out.tag("?"); break;
     }
   }
